@@ -331,7 +331,13 @@ pub fn generate(rng: &mut Rng, mode: Prop) -> Scenario {
                 }
             }
             Class::StackFill => gen_stack_fill(rng, tag, kind.has_packet()),
-            Class::DeepCall => gen_deep_call(tag),
+            Class::DeepCall => {
+                if rng.chance(1, 2) {
+                    gen_deep_call(tag)
+                } else {
+                    gen_deep_call_chain(tag)
+                }
+            }
             Class::ProbePktLoop => {
                 let count = rng.range(2, 6) as usize;
                 let step = *rng.pick(&[1usize, 1, 2, 3, 8]);
